@@ -733,13 +733,12 @@ Section Eval.
                            then t <- chk r (S i) ;; ret (Some a' :: t)
                            else fail (EArgType fname (S i))
                        end) argv2 0 ;;
-                  (* wrapVariadicArgs: reflect.Value.Set of a missing argument panics *)
+                  (* wrapVariadicArgs *)
                   if isvar then
                     let fixed := firstn (pc - 1) checked in
                     let vars := skipn (pc - 1) checked in
-                    if existsb (fun o => match o with None => true | _ => false end) vars
-                    then panic "wrapVariadicArgs: Set on zero Value"
-                    else ret (fixed ++ [Some (VArr (somes vars))])
+                    (* a missing argument leaves its slot nil *)
+                    ret (fixed ++ [Some (VArr (map (fun o => match o with Some x => x | None => VNull end) vars))])
                   else ret checked
               end ;;
             env' <- new_frame (Some lenv) ;;
